@@ -19,6 +19,7 @@ const (
 	rC01Fld   = "TABLE.clause-field-completeness"
 	rC01Order = "ORDABS.strata-in-order"
 	rC01Eval  = "ORDABS.clause-evaluation"
+	rC01Rewrite = "ORDABS.analysis-preserves-clause"
 	rC01UF    = "ORDABS.substitutions"
 )
 
@@ -44,6 +45,12 @@ func checkC01(c *core.Ctx) {
 	strataOrderRule(c, rC01Order)
 	c.Rule(rC01Eval, "(*engine).oneStepEvalClause is read from source and evaluated together with everything below it (oneStepEvalPremise, premiseAtom/NegAtom/Eq/Ineq, functional.EvalAtom/EvalExpr, builtin.Decide, the union-find substitution; only the fact store is a set model) on every clause of a family (one to three premises from a pool of positive, negated, wildcard, repeated-variable, constant-argument and built-in atoms, equalities with constants, variables and function expressions on either side, inequalities; three heads) that is safe in its written order, over three stores: it returns no error, only ground facts, and exactly the head instances under all variable assignments that satisfy the body (a declarative reference that knows no evaluation order); with one atom marked as delta it reads that atom from the delta store and the others from the full store", 1)
 	clauseEvalRule(c, rC01Eval, "semi-naive")
+	c.Rule(rC01Rewrite, "what analysis hands to the evaluator has the meaning of what was written: RewriteClause and CheckRule, read from source and evaluated on every clause of one to three premises over head h(X,Y) (the family of C04), return a permutation of the premises, accept only clauses that are safe in the resulting order, and every accepted clause evaluates without error to ground facts (obligations shared with C04)", 2)
+	c.Under(rC01Rewrite, []string{rC04Perm, rC04Safe, rC04Eval}, func() {
+		c04OnlyHead = 1
+		defer func() { c04OnlyHead = -1 }()
+		c04Corpus(c)
+	})
 }
 
 // c01Loop is shared by C01, C05, C17 and C20 (different rule names, same evaluation).
